@@ -67,7 +67,7 @@ def gen_function(classes, contracts, name, extra=None):
                 out['obligations'].append((nm, o.kind, None, o.info))
             else:
                 out['obligations'].append((nm, o.kind, 'g', o.info))
-                key = tuple(h.get_id() for h in o.hyps)
+                key = (o.kind == 'frame',) + tuple(h.get_id() for h in o.hyps)
                 groups.setdefault(key, (o.hyps, []))[1].append(o)
         for key, (hyps, obls) in groups.items():
             prelude, ps = group_script(eng, hyps, obls)
